@@ -8,8 +8,8 @@ use crate::zalsa_local::verif::{empty_derived, revs};
 use crate::zalsa_local::{OriginAndExtra, QueryEdge};
 use crate::{Durability, Revision};
 
-//@off(cbmc-does-not-finish) id=K-DIFF-1 kind=B bound=2-stale-structs props=C06,C07 timeout=900 fn=MemoHeader::diff_outputs,report_stale_output,DatabaseKeyIndex::remove_stale_output
-//@ pre: old memo with no output edges (derived or derived-untracked); the new execution reports 0, 1 or 2 stale tracked structs (symbolic count, oracle ingredients)
+//@off(cbmc-runs-out-of-memory) id=K-DIFF-1 kind=B bound=2-stale-structs props=C06,C07 timeout=900 fn=MemoHeader::diff_outputs,report_stale_output,DatabaseKeyIndex::remove_stale_output
+//@ pre: old memo with no output edges (derived or derived-untracked, symbolic); the new execution reports 2 stale tracked structs (any ids; the count is a harness constant: a vector of symbolic length exhausts CBMC's memory)
 //@ post: every stale struct is handed to remove_stale_output exactly once, in order, with the executing query as executor, addressed to its own ingredient; nothing else is removed
 #[cfg_attr(kani, kani::proof)]
 #[cfg_attr(kani, kani::unwind(6))]
@@ -24,31 +24,74 @@ fn k_diff_1_stale_structs() {
         OriginAndExtra::derived([QueryEdge::input(vk::key(0, 1))].into_iter(), Default::default())
     };
     let old = header(Revision::start(), Durability::LOW, Revision::start(), true, old_origin);
-    let n: u8 = vk::any();
-    vk::assume(n <= 2);
-    let s0 = (identity(1, 7, 0), vk::key(1, 20).key_index());
-    let s1 = (identity(1, 7, 1), vk::key(1, 21).key_index());
-    let mut stale = Vec::new();
-    if n >= 1 {
-        stale.push(s0);
-    }
-    if n >= 2 {
-        stale.push(s1);
-    }
-    let completed = CompletedQuery { revisions: revs(Durability::LOW, Revision::start(), true, empty_derived()), stale_tracked_structs: stale };
+    let s0 = (identity(1, 7, 0), vk::any_id());
+    let s1 = (identity(1, 7, 1), vk::any_id());
+    let completed = CompletedQuery { revisions: revs(Durability::LOW, Revision::start(), true, empty_derived()), stale_tracked_structs: vec![s0, s1] };
     old.diff_outputs(&z, me, &completed);
     let log = the_log();
-    assert!(log.n == n as usize);
-    if n >= 1 {
+    assert!(log.n == 2);
+    let c = log.calls[0].unwrap();
+    assert!(c.kind == REMOVED && c.ing == 1 && c.id == s0.1 && c.executor == Some(me));
+    let c = log.calls[1].unwrap();
+    assert!(c.kind == REMOVED && c.ing == 1 && c.id == s1.1 && c.executor == Some(me));
+    vcover!();
+    std::mem::forget(old);
+    std::mem::forget(completed);
+    std::mem::forget(z);
+}
+
+/// Old memo with one input edge and one output edge `o`; the new execution writes output `o` again (or not).
+fn diff_one_output(rewritten: bool) {
+    let z = zalsa_with_oracles(2, false);
+    let me = vk::key(0, 99);
+    let o = DatabaseKeyIndex::new(crate::zalsa::IngredientIndex::new(1), vk::any_id());
+    let untracked: bool = vk::any();
+    let old_edges = [QueryEdge::input(vk::key(0, 1)), QueryEdge::output(o)];
+    let old_origin = if untracked {
+        OriginAndExtra::derived_untracked(old_edges.into_iter(), Default::default())
+    } else {
+        OriginAndExtra::derived(old_edges.into_iter(), Default::default())
+    };
+    let old = header(Revision::start(), Durability::LOW, Revision::start(), true, old_origin);
+    let new_untracked: bool = vk::any();
+    let new_origin = match (rewritten, new_untracked) {
+        (true, false) => OriginAndExtra::derived([QueryEdge::output(o)].into_iter(), Default::default()),
+        (true, true) => OriginAndExtra::derived_untracked([QueryEdge::output(o)].into_iter(), Default::default()),
+        (false, false) => OriginAndExtra::derived([QueryEdge::input(vk::key(0, 2))].into_iter(), Default::default()),
+        (false, true) => OriginAndExtra::derived_untracked([QueryEdge::input(vk::key(0, 2))].into_iter(), Default::default()),
+    };
+    let completed = CompletedQuery { revisions: revs(Durability::LOW, Revision::start(), true, new_origin), stale_tracked_structs: Vec::new() };
+    old.diff_outputs(&z, me, &completed);
+    let log = the_log();
+    if rewritten {
+        assert!(log.n == 0);
+    } else {
+        assert!(log.n == 1);
         let c = log.calls[0].unwrap();
-        assert!(c.kind == REMOVED && c.ing == 1 && c.id == s0.1 && c.executor == Some(me));
-    }
-    if n >= 2 {
-        let c = log.calls[1].unwrap();
-        assert!(c.kind == REMOVED && c.ing == 1 && c.id == s1.1 && c.executor == Some(me));
+        assert!(c.kind == REMOVED && c.ing == 1 && c.id == o.key_index() && c.executor == Some(me));
     }
     vcover!();
     std::mem::forget(old);
     std::mem::forget(completed);
     std::mem::forget(z);
+}
+
+//@off(cbmc-runs-out-of-memory) id=K-DIFF-2a kind=B bound=1-old-output props=C06,C10 timeout=900 fn=MemoHeader::diff_outputs,QueryOriginRef::outputs
+//@ pre: the previous execution wrote one output (specified value / created entity) `o`; the new execution - fully tracked or with an untracked read - writes `o` again
+//@ post: nothing is discarded: an output that is written again is not stale, whatever the origin kind of the new execution
+#[cfg_attr(kani, kani::proof)]
+#[cfg_attr(kani, kani::unwind(6))]
+#[cfg_attr(salsa_verif_replay, test)]
+fn k_diff_2a_rewritten_output_is_kept() {
+    diff_one_output(true)
+}
+
+//@off(cbmc-runs-out-of-memory) id=K-DIFF-2b kind=B bound=1-old-output props=C06,C10 timeout=900 fn=MemoHeader::diff_outputs,report_stale_output
+//@ pre: as K-DIFF-2a, but the new execution does not write `o` any more
+//@ post: `o` is handed to remove_stale_output exactly once, with the executing query as executor (a value the creator no longer specifies / an entity it no longer creates is discarded)
+#[cfg_attr(kani, kani::proof)]
+#[cfg_attr(kani, kani::unwind(6))]
+#[cfg_attr(salsa_verif_replay, test)]
+fn k_diff_2b_dropped_output_is_discarded() {
+    diff_one_output(false)
 }
